@@ -21,6 +21,11 @@ CHECKS = {
     'C20': ('Moment', 'TLC checks the transcribed _delay against Occ(spec) (Computable, Lands, NotFurther) on 126 specifications x 4384 instants of a 3-year calendar, and the firing model MomentFire (FireTargets, BootFires, BootOnce, Armed, Recurs); the real _delay under an injected clock for every/sampled (spec, instant) pair and the real defer/periodics/complete with the virtual reactor clock for every transition of the firing model are validated by TLC; the fires-once defect of defer/complete is a recorded known finding', '5.C20'),
     'C15': ('Version', 'TLC checks the transcribed comparison operators / newer() against the lexicographic order on all 729 version pairs, and the transcribed _diff/build against the declarative Scheduled(a) over engines x persisted version lists x bump choices at the three levels; the real operators on 8 real Version subclasses for every pair and the real version.current + schedule.build (+ db.versions() on a real shelve DB in thorough) for every enumerated case are validated by TLC', '5.C15'),
     'C17': ('Search', 'TLC checks Denote(Scrub(e)) = Denote(e) on all 65,641 run-id expressions and the transcribed shelve find/facet against the declarative Match/FindOK/Pages/FacetOK over small databases x constraint combinations x pages; the real _scrub (3 input forms) and the real shelve search + fe.api wrappers on real shelve files are executed for the TLC-generated cases and validated by TLC', '5.C17'),
+    'C06': ('Store', 'TLC exhaustive on Store.tla (catalogue tables, prime keys, blobs and a reference dictionary; updates, loads at exact/absent/future runs, removes, version bumps at three levels, target additions, close/reopen over prefix-related names) with LoadOK; every transition of the small instance + pseudo-random depth-25 histories executed on real shelve files through the in-memory client/server bridge (real Interface._update/_load, Connector, comms.Worker); TLC validates every load result against the reference dictionary', '5.C06'),
+    'C07': ('StoreCrash', 'TLC exhaustive on StoreCrash.tla (an update as six separately enabled steps, Crash enabled between any two, reopen, purge; 12 kill sites) with NamedByDigest, NoDangling, NoveltyExact, SingleCopy, and the wrong design (record before move) required to fail; histories ending in every kill site are executed in forked child processes on real files (os._exit injected at the chosen step), the parent reopens the database from the files; TLC validates the directory listing with recomputed digests, the prime table and the reported novelty flags', '5.C07'),
+    'C08': ('Store', 'same module as C06 with the clauses Bijective, Survives, Resolves, NextRun, ExactNames (remove / reset / trace touch exactly the entries with those exact names) on real shelve files, tables and indices logged after each operation and after reopen', '5.C08'),
+    'C09': ('Dag', 'TLC runs the transcription of dag.Construct (every _parents iteration order) on the bounded program domain and checks every clause against the declarative graph; every program is materialised as an engine, the real Construct runs on it twice (factory order reversed) and TLC validates the record with the same clauses', '5.C09'),
+    'C18': ('Chronicle', 'TLC checks the transcribed day-walk of chronicle.find (and of the two front-end callers) against the declarative window on three calendars straddling year end, leap day and month ends, and AppendOnce on the journal files; the real append/find and fe.api.schedule.failed/succeeded run on real files under an injected clock for TLC-generated histories and queries; TLC validates every answer', '5.C18'),
 }
 
 NOT_YET = {}
@@ -62,6 +67,10 @@ def main():
             {'name': 'Frame', 'path': 'spec/Frame.tla', 'serves_properties': ['C14'], 'kind_free_text': 'TLA+ spec of length-prefixed framing and the legacy handshake wrapper; Frame_MC, Frame_Gen, Frame_Cuts, Frame_Trace; harness/frame_h.py'},
             {'name': 'Gate', 'path': 'spec/Gate.tla', 'serves_properties': ['C16'], 'kind_free_text': 'TLA+ spec of the compliance gate as a decision procedure over package descriptors; harness/gate_h.py materialises packages on disk'},
             {'name': 'FrontEnd', 'path': 'spec/FrontEnd.tla', 'serves_properties': ['C19'], 'kind_free_text': 'TLA+ spec of the static file jail and the endpoint access table; harness/frontend_h.py'},
+            {'name': 'Store', 'path': 'spec/Store.tla', 'serves_properties': ['C06', 'C08'], 'kind_free_text': 'TLA+ catalogue + blob store + reference dictionary; Store_MC, Store_Gen, Store_Sim, Store_Trace; harness/store_h.py on real shelve files via vlib/bridge.py'},
+            {'name': 'StoreCrash', 'path': 'spec/StoreCrash.tla', 'serves_properties': ['C07'], 'kind_free_text': 'TLA+ six-step update with crash points; harness/storecrash_h.py kills forked children at the chosen step'},
+            {'name': 'Dag', 'path': 'spec/Dag.tla', 'serves_properties': ['C09'], 'kind_free_text': 'TLA+ transcription of dag.Construct vs the declarative graph; Dag_MC, Dag_Gen, Dag_Sim, Dag_Trace; harness/dag_h.py'},
+            {'name': 'Chronicle', 'path': 'spec/Chronicle.tla', 'serves_properties': ['C18'], 'kind_free_text': 'TLA+ execution-history journal and window query over a mini calendar; harness/chronicle_h.py on real files with injected clock'},
             {'name': 'Version', 'path': 'spec/Version.tla', 'serves_properties': ['C15'], 'kind_free_text': 'TLA+ version order + version-diff scheduling at (re)load; harness/version_h.py'},
             {'name': 'Search', 'path': 'spec/Search.tla', 'serves_properties': ['C17'], 'kind_free_text': 'TLA+ run-id expression normaliser + find/facet/paging reference and transcription; harness/search_h.py on real shelve files'},
             {'name': 'Moment', 'path': 'spec/Moment.tla', 'serves_properties': ['C20'], 'kind_free_text': 'TLA+ calendar + time-to-event (Moment) and timer firing (MomentFire); harness/moment_h.py'},
